@@ -267,3 +267,77 @@ pub fn fsync_end(ok: bool) {
 pub fn injected_fsync_error() -> crate::error::FeoxError {
     injected("fsync failure after the sync completed")
 }
+
+// ---------------------------------------------------------------------------
+// Read-only state dumps (filled in by `verif_*` accessors next to the private data).
+
+#[derive(Clone, Debug, PartialEq, Eq)]
+pub struct RecordDump {
+    pub key: Vec<u8>,
+    /// Value bytes if they are resident in memory.
+    pub resident: Option<Vec<u8>>,
+    pub timestamp: u64,
+    pub ttl_expiry: u64,
+    pub value_len: usize,
+    /// First block of the on-disk extent, 0 if not (yet) durable.
+    pub sector: u64,
+    /// Extent length in blocks under the store's record format.
+    pub blocks: u64,
+    pub refcount: u32,
+    pub extent_retired: bool,
+    pub extent_readers: u32,
+    /// The record borrows its value from a predecessor generation.
+    pub deferred: bool,
+    pub retired_at: u64,
+    /// Address of the record, a generation identity.
+    pub ptr: usize,
+}
+
+#[derive(Clone, Debug, PartialEq, Eq)]
+pub struct PendingDump {
+    pub shard: usize,
+    pub op: &'static str,
+    pub key: Vec<u8>,
+    pub timestamp: u64,
+    pub sector: u64,
+    pub work_status: u32,
+    pub ptr: usize,
+}
+
+#[derive(Clone, Debug, PartialEq, Eq)]
+pub struct CacheEntryDump {
+    pub bucket: usize,
+    pub key: Vec<u8>,
+    pub value_len: usize,
+    pub size: usize,
+    pub referenced: bool,
+    /// Address of the generation the entry was cached for, if any.
+    pub record_ptr: Option<usize>,
+    /// That generation is still alive (the weak reference upgrades).
+    pub record_live: bool,
+}
+
+#[derive(Clone, Debug, Default, PartialEq, Eq)]
+pub struct StoreDump {
+    pub format_version: u32,
+    pub device_size: u64,
+    pub memory_only: bool,
+    /// Hash index, sorted by key.
+    pub records: Vec<RecordDump>,
+    /// Ordered index in iteration order: (key, timestamp, record address).
+    pub tree: Vec<(Vec<u8>, u64, usize)>,
+    pub record_count: u32,
+    pub memory_usage: usize,
+    pub disk_usage: u64,
+    pub keys_with_ttl: u64,
+    pub cache_memory: usize,
+    /// Free runs (start block, blocks) in address order.
+    pub free_runs: Vec<(u64, u64)>,
+    /// The same set as indexed by size.
+    pub free_runs_by_size: Vec<(u64, u64)>,
+    pub total_free: u64,
+    pub shards: usize,
+    pub buffered: Vec<PendingDump>,
+    pub retirements: Vec<PendingDump>,
+    pub cache: Vec<CacheEntryDump>,
+}
